@@ -186,7 +186,7 @@ theorem c20_strgen_fields (cs : List Nat) (hne : Utf8.runes cs ≠ [])
 /-- Whenever `Generate(n)` (`n ≥ 0`) returns, it returns exactly `n` runes, all drawn from
 the character set; it never panics, whatever the random words are.  (Any generator
 state, any set incl. multi-byte runes.) -/
-theorem c20_str_partial (g : StrGen) (n : Nat) (ws : List Nat) :
+theorem c20_str_when_returns (g : StrGen) (n : Nat) (ws : List Nat) :
     generate g n ws ≠ .panic ∧
     ∀ out rest, generate g n ws = .done out rest →
       out.length = n ∧ (∀ r ∈ out, r ∈ g.charSet) ∧ rest.length < ws.length := by
@@ -225,7 +225,7 @@ theorem c20_str_runes (cs : List Nat) (g : StrGen) (hg : newStrGen cs = some g) 
     split at hg
     · cases hg
     · cases hg; rfl
-  obtain ⟨hlen, hmem, _⟩ := (c20_str_partial g n ws).2 out rest h
+  obtain ⟨hlen, hmem, _⟩ := (c20_str_when_returns g n ws).2 out rest h
   have hvalid : ∀ r ∈ out, Utf8.validRune r = true :=
     fun r hr => Utf8.runes_validRune cs r (hcs ▸ hmem r hr)
   exact ⟨Utf8.runes_encode out hvalid, by rw [Utf8.runeCount_encode out hvalid, hlen],
